@@ -29,13 +29,18 @@ class CFG:
         self._loop_stack: list[tuple[typing.Any, list]] = []  # (header, break_targets collector)
         self._try_stack: list[dict] = []
         first, outs = self._block(fn.body, [])  # type: ignore[attr-defined]
-        self.g.add_edge(ENTRY, first if first is not None else EXIT)
+        self._normal(ENTRY, first if first is not None else EXIT)
         for o in outs:
-            self.g.add_edge(o, EXIT)
+            self._normal(o, EXIT)
         self._idom = None
         self._ipdom = None
 
     # ---- construction -----------------------------------------------------------------------
+    def _normal(self, u, v, **attrs) -> None:
+        """Add a normal-flow edge (an exceptional edge between the same nodes does not make it exceptional)."""
+        self.g.add_edge(u, v, **attrs)
+        self.g.edges[u, v]['exc'] = False
+
     def _nid(self, stmt: ast.AST):
         self._ids[id(stmt)] = stmt
         self.g.add_node(id(stmt))
@@ -88,7 +93,7 @@ class CFG:
                 started = True
             else:
                 for p in outs:
-                    self.g.add_edge(p, f)
+                    self._normal(p, f)
             outs = o
             if not outs:
                 # following statements are unreachable; still build them so lookups work
@@ -101,11 +106,11 @@ class CFG:
         if isinstance(stmt, ast.If):
             self._maybe_raise(nid, stmt.test, in_try)
             bf, bo = self._block(stmt.body, [])
-            self.g.add_edge(nid, bf if bf is not None else nid, cond=True)
+            self._normal(nid, bf if bf is not None else nid, cond=True)
             outs = list(bo)
             if stmt.orelse:
                 of, oo = self._block(stmt.orelse, [])
-                self.g.add_edge(nid, of, cond=False)
+                self._normal(nid, of, cond=False)
                 outs += oo
             else:
                 outs.append(nid)
@@ -117,15 +122,15 @@ class CFG:
             bf, bo = self._block(stmt.body, [])
             self._loop_stack.pop()
             if bf is not None:
-                self.g.add_edge(nid, bf, cond=True)
+                self._normal(nid, bf, cond=True)
             for o in bo:
-                self.g.add_edge(o, nid, back=True)
+                self._normal(o, nid, back=True)
             outs = list(breaks)
             infinite = isinstance(stmt, ast.While) and core.is_const(stmt.test, True)
             if stmt.orelse:
                 of, oo = self._block(stmt.orelse, [])
                 if not infinite:
-                    self.g.add_edge(nid, of, cond=False)
+                    self._normal(nid, of, cond=False)
                     outs += oo
             elif not infinite:
                 outs.append(nid)
@@ -134,7 +139,7 @@ class CFG:
             self._maybe_raise(nid, stmt, in_try, header_only=True)
             bf, bo = self._block(stmt.body, [])
             if bf is not None:
-                self.g.add_edge(nid, bf)
+                self._normal(nid, bf)
                 return nid, bo
             return nid, [nid]
         if isinstance(stmt, ast.Try):
@@ -142,7 +147,12 @@ class CFG:
         if isinstance(stmt, ast.Return):
             self._maybe_raise(nid, stmt, in_try)
             fin = self._pending_finally()
-            self.g.add_edge(nid, fin if fin is not None else EXIT, ret=True)
+            if fin is not None:
+                for frame in reversed(self._try_stack):
+                    if frame['final'] is not None and frame['phase'] != 'final':
+                        frame['has_return'] = True
+                        break
+            self._normal(nid, fin if fin is not None else EXIT, ret=True)
             return nid, []
         if isinstance(stmt, ast.Raise):
             self._raise_edges(nid)
@@ -153,7 +163,7 @@ class CFG:
             return nid, []
         if isinstance(stmt, ast.Continue):
             if self._loop_stack:
-                self.g.add_edge(nid, self._loop_stack[-1][0], back=True)
+                self._normal(nid, self._loop_stack[-1][0], back=True)
             return nid, []
         if isinstance(stmt, core.FUNC + (ast.ClassDef,)):
             return nid, [nid]
@@ -199,13 +209,13 @@ class CFG:
         self._try_stack.append(frame)
         frame['phase'] = 'body'
         bf, bo = self._block(stmt.body, [])
-        self.g.add_edge(nid, bf if bf is not None else nid)
+        self._normal(nid, bf if bf is not None else nid)
         outs: list = []
         frame['phase'] = 'else'
         if stmt.orelse:
             ef, eo = self._block(stmt.orelse, [])
             for o in bo:
-                self.g.add_edge(o, ef)
+                self._normal(o, ef)
             outs += eo
         else:
             outs += bo
@@ -213,18 +223,19 @@ class CFG:
         for h, hid in zip(stmt.handlers, handler_ids):
             hf, ho = self._block(h.body, [])
             if hf is not None:
-                self.g.add_edge(hid, hf)
+                self._normal(hid, hf)
                 outs += ho
             else:
                 outs.append(hid)
         self._try_stack.pop()
         if final_first is not None:
             for o in outs:
-                self.g.add_edge(o, final_first)
+                self._normal(o, final_first)
             # the finally block may continue normally, re-raise or complete a pending return
             for o in final_outs:
                 self.g.add_edge(o, RAISE, exc=True)
-                self.g.add_edge(o, EXIT, ret=True)
+                if frame.get('has_return'):  # completing a return that was pending while the finally block ran
+                    self._normal(o, EXIT, ret=True)
             return nid, final_outs
         return nid, outs
 
